@@ -62,6 +62,15 @@ def plan(tier, seed):
     for wname in ("molden", "molekel", "molden_vendor"):
         for rep in range(6 if tier == "quick" else 300):
             cases.append({"kind": "corrupt", "writer": wname, "rep": rep, "seed": seed})
+    # coefficients printed with 3-6 decimals (what most programs do): norm errors of 1e-3 .. 1e-6 that are not defects; loaded with a
+    # threshold well above the error (must load) and one well below it (no decoding is normalised to that accuracy: must be refused)
+    for klass in ws["molden_vendor"].CLASSES:
+        for rep in range(1 if tier == "quick" else 20):
+            cases.append({"kind": "rounded", "writer": "molden_vendor", "klass": klass, "rep": rep, "seed": seed})
+    for klass in ws["molden"].CLASSES:
+        if klass not in getattr(ws["molden"], "NOT_ASSERTED", {}):
+            for rep in range(1 if tier == "quick" else 10):
+                cases.append({"kind": "rounded", "writer": "molden", "klass": klass, "rep": rep, "seed": seed})
     return cases
 
 
@@ -222,6 +231,76 @@ def case_corrupt(case):
     return viols, feats, counters, {"writer": case["writer"], "klass": klass, "corruption": kind, "best_norm_error": best}
 
 
+def case_rounded(case):
+    """A standard or vendor-encoded file whose orbital coefficients carry 3-6 decimals, loaded with thresholds on both sides of
+    the norm error that the rounding causes."""
+    ws = spec_writers.all_writers()
+    mod = ws[case["writer"]]
+    rng = rng_for(5, 9, case["seed"], case["rep"], sum(map(ord, case["writer"] + case["klass"])))
+    model = mod.generate(rng, case["klass"])
+    printed = model["printed"] if "printed" in model else model.get("wfn")
+    render_mod = ws["molden"]
+    if printed is None:
+        return None
+    vendor = model.get("vendor")
+    ndec = int(rng.choice([3, 4, 6]))
+    rounded = dict(printed)
+    rounded["mo_coeffs"] = np.round(np.array(printed["mo_coeffs"], dtype=float), ndec)
+    try:
+        e_true = norm_errors(_public(vendors.decode(vendor, rounded) if vendor else rounded))
+    except Exception:
+        return None
+    e_best = norm_errors(_public(rounded))
+    for enc in vendors.ENCODINGS:
+        try:
+            e_best = min(e_best, norm_errors(_public(vendors.decode(enc, rounded))))
+        except Exception:
+            continue
+    viols, feats = [], []
+    counters = {"loads": 0, "rounded_files": 1, "must_reject": 0, "rejected": 0, "must_load": 0}
+    root = tempfile.mkdtemp(prefix="vf_c05r_")
+    try:
+        path = os.path.join(root, render_mod.FILENAME)
+        with open(path, "w") as fh:
+            fh.write(render_mod.render(model, rounded))
+        tag = f"{case['writer']}/{case['klass']} with {ndec}-decimal coefficients (norm error of the right decoding {e_true:.1e}, smallest of any {e_best:.1e})"
+        loose = [t for t in (20 * e_true, 200 * e_true) if 1e-9 < t < 0.05]
+        tight = [t for t in (e_best / 100, e_best / 1000) if t > 1e-13]
+        for thr in loose:
+            d, err, msgs = load(path, thr)
+            counters["loads"] += 1
+            counters["must_load"] += 1
+            if err is not None:
+                viols.append(_v(f"refused:{vendor or 'standard'}", f"{tag}: refused with norm_threshold={thr:.1e}: {err}"))
+            elif loaded_orthonormality(d) > 0 and norm_of_loaded(d) > 10 * thr + 1e-6:
+                viols.append(_v(f"not-orthonormal:{vendor or 'standard'}", f"{tag}: loaded with norm_threshold={thr:.1e} but the returned "
+                                f"orbitals have norm error {norm_of_loaded(d):.2e}"))
+            feats.append(f"rounded:{case['klass']}:d{ndec}:loose:{'refused' if err else 'loaded'}")
+        for thr in tight:
+            d, err, msgs = load(path, thr)
+            counters["loads"] += 1
+            counters["must_reject"] += 1
+            if err is not None:
+                counters["rejected"] += 1
+            else:
+                viols.append(_v("uncorrectable-file-loaded", f"{tag}: loaded with norm_threshold={thr:.1e} "
+                                f"({'after ' + msgs[0] if msgs else 'without correction'})"))
+            feats.append(f"rounded:{case['klass']}:d{ndec}:tight:{'refused' if err else 'loaded'}")
+    finally:
+        shutil.rmtree(root, ignore_errors=True)
+    return viols, feats, counters, {"writer": case["writer"], "klass": case["klass"], "vendor": vendor, "decimals": ndec, "e_true": e_true,
+                                    "e_best": e_best}
+
+
+def norm_of_loaded(data):
+    """max |diag(C^T S C) - 1| of a loaded object w.r.t. its own basis (exact overlaps)."""
+    S = gto.overlap_exact(data.obasis, data.atcoords)
+    out = 0.0
+    for C in ((data.mo.coeffsa, data.mo.coeffsb) if data.mo.kind == "unrestricted" else (data.mo.coeffs,)):
+        out = max(out, float(np.abs(np.diag(C.T @ S @ C) - 1).max()))
+    return out
+
+
 def _public(wfn):
     from ..ref.spec_writers import _wfnmodel as wm
 
@@ -232,7 +311,7 @@ def _public(wfn):
 
 
 def run_case(case):
-    res = case_corrupt(case) if case["kind"] == "corrupt" else case_file(case)
+    res = case_corrupt(case) if case["kind"] == "corrupt" else case_rounded(case) if case["kind"] == "rounded" else case_file(case)
     if res is None:
         return {"status": "skip"}
     viols, feats, counters, sample = res
